@@ -185,8 +185,11 @@ def query (o : Obj) (q : Json) : Except String Json := do
       let A ← intList x
       let inds ← intList y
       let incl ← getBool z
-      let r := mps2latValuesMasked reg A inds incl
-      return Json.arr #[ofNatList r.1, ofList optIntJ r.2]
+      let out (r : Option (List Nat × List (Option Int))) : Json := match r with
+        | some r => Json.arr #[ofNatList r.1, ofList optIntJ r.2]
+        | none => Json.str "error"
+      -- [as coded, with pending_fixes/C19-masked-shape.diff applied]
+      return Json.arr #[out (mps2latValuesMasked reg A inds incl), out (mps2latValuesMasked reg A inds incl true)]
     else throw s!"unknown query {s}"
   | [t, x, y, z, w] =>
     let s ← getStr t
